@@ -108,7 +108,7 @@ def env_for(variant, extra=None, tsan_log=None):
     e = dict(os.environ)
     e.update(SAN_ENV)
     if variant.startswith("tsan"):
-        e["TSAN_OPTIONS"] = "halt_on_error=0:exitcode=0:second_deadlock_stack=1:history_size=4:report_signal_unsafe=0" + (":log_path=" + tsan_log if tsan_log else "")
+        e["TSAN_OPTIONS"] = "halt_on_error=0:exitcode=0:second_deadlock_stack=1:history_size=4:report_signal_unsafe=0:suppressions=" + os.path.join(VERIF, "lib", "vf", "tsan.supp") + (":log_path=" + tsan_log if tsan_log else "")
     if extra:
         e.update(extra)
     return e
